@@ -209,12 +209,16 @@ func randRT(r *rand.Rand, maxv int) Case {
 		if o.W == "default" {
 			claimed = k.n != "TexCoord" && k.n != "Custom" && k.n != "Intensity" && k.n != "Zeta" && !(k.n == "Color" && k.ar == 4)
 		}
-		unspec := (o.W == "default" || o.Unspec) && !(k.n == "TexCoord" && k.ar == 2)
+		unspec := (o.W == "default" || o.Unspec) && !(k.n == "TexCoord" && k.ar == 2 && topo == "triangle")
 		written = written || claimed || unspec
 	}
 	if !written {
 		kinds = append(kinds, attrKinds[0])
-		if o.W == "custom" {
+		hasPos := false
+		for _, p := range o.Props {
+			hasPos = hasPos || (p.Attr == "Position" && p.Ar == 3)
+		}
+		if o.W == "custom" && !hasPos {
 			o.Props = append(o.Props, WProp{Ar: 3, Attr: "Position", Names: attrKinds[0].names[r.Intn(3)], T: "float"})
 		}
 	}
